@@ -13,6 +13,7 @@ import (
 	"time"
 
 	"github.com/gotid/god/internal/verifdrv"
+	"github.com/gotid/god/lib/logx"
 	"github.com/gotid/god/lib/threading"
 	"github.com/gotid/god/lib/timex"
 )
@@ -131,6 +132,9 @@ type verifWheelCase struct {
 	Interval int64            `json:"interval"` // nanoseconds
 	Slots    int              `json:"slots"`
 	Calls    []verifWheelCall `json:"calls"`
+	// keys whose execute callback / drain function call panics after having been recorded ("*": all)
+	PanicExec  []string `json:"panic_exec"`
+	PanicDrain []string `json:"panic_drain"`
 }
 
 type verifWheelObs struct {
@@ -155,18 +159,19 @@ type verifEvent struct {
 // goroutine of runTasks / GoSafe) is attributed to the call during which its first callback
 // started; a drained pair to the latest Drain call. Nothing here knows what should happen.
 type verifGates struct {
-	mu           sync.Mutex
-	cur          int            // index of the call being processed
-	lastDrain    int            // index of the latest Drain call
-	batch        map[uint64]int // goroutine id -> call of its first callback
-	fired        []verifEvent
-	drained      []verifEvent
-	armed        map[string]chan struct{} // hold: key -> gate not yet reached
-	holding      map[string]chan struct{} // gates a callback is blocked on
-	drainGate    chan struct{}
-	blocked      int32 // callbacks currently blocked on a gate (taken off by the releaser)
-	drainWaiters int   // of which: drain function calls
-	pump         int32 // tick deliveries in flight (run loop busy inside drainAll)
+	mu                    sync.Mutex
+	cur                   int            // index of the call being processed
+	lastDrain             int            // index of the latest Drain call
+	batch                 map[uint64]int // goroutine id -> call of its first callback
+	fired                 []verifEvent
+	drained               []verifEvent
+	armed                 map[string]chan struct{} // hold: key -> gate not yet reached
+	holding               map[string]chan struct{} // gates a callback is blocked on
+	drainGate             chan struct{}
+	blocked               int32           // callbacks currently blocked on a gate (taken off by the releaser)
+	drainWaiters          int             // of which: drain function calls
+	pump                  int32           // tick deliveries in flight (run loop busy inside drainAll)
+	panicExec, panicDrain map[string]bool // keys whose callback panics after being recorded; read-only
 }
 
 func (g *verifGates) exec(k, v any) {
@@ -190,6 +195,9 @@ func (g *verifGates) exec(k, v any) {
 	if gate != nil {
 		<-gate // the releaser has already taken this callback off the blocked count
 	}
+	if g.panicExec["*"] || g.panicExec[ks] {
+		panic("verif: execute callback panics for " + ks)
+	}
 }
 
 func (g *verifGates) drain(k, v any) {
@@ -205,6 +213,9 @@ func (g *verifGates) drain(k, v any) {
 	g.mu.Unlock()
 	if gate != nil {
 		<-gate
+	}
+	if g.panicDrain["*"] || g.panicDrain[ks] {
+		panic("verif: drain function panics for " + ks)
 	}
 }
 
@@ -246,7 +257,14 @@ func verifWheel(raw json.RawMessage) any {
 	if err := json.Unmarshal(raw, &c); err != nil {
 		return map[string]any{"error": err.Error()}
 	}
-	g := &verifGates{batch: map[uint64]int{}, armed: map[string]chan struct{}{}, holding: map[string]chan struct{}{}, lastDrain: -1}
+	g := &verifGates{batch: map[uint64]int{}, armed: map[string]chan struct{}{}, holding: map[string]chan struct{}{}, lastDrain: -1,
+		panicExec: map[string]bool{}, panicDrain: map[string]bool{}}
+	for _, k := range c.PanicExec {
+		g.panicExec[k] = true
+	}
+	for _, k := range c.PanicDrain {
+		g.panicDrain[k] = true
+	}
 	if c.Interval <= 0 || c.Slots <= 0 {
 		w, err := NewTimingWheel(time.Duration(c.Interval), c.Slots, g.exec)
 		if err == nil {
@@ -433,6 +451,7 @@ func verifWheel(raw json.RawMessage) any {
 }
 
 func TestVerifDriver(t *testing.T) {
+	logx.Disable() // recovered callback panics are logged with their stacks: not an observation
 	verifdrv.Run(t, func(raw json.RawMessage) any {
 		var head struct {
 			Kind string `json:"kind"`
